@@ -142,7 +142,9 @@ class Vars(VarsBasic):
         elif isinstance(other, Vars):
             return Vars(self.a, self.array+other.array)
         elif isinstance(other, np.ndarray):
-            return Vars(self.a, self.array+other)
+            if self.total_size != other.reshape(-1, ).shape[0]:
+                raise ValueError('Incompatible array size')
+            return Vars(self.a, self.array+other.reshape(-1, ))
         return NotImplemented
 
     def __radd__(self, other: Union[int, float, Vars, np.ndarray]) -> Vars:
